@@ -28,6 +28,9 @@ def gen_history(r, hid, max_lifetimes=3, max_ops=12, panic_prob=0.25):
             pos = r.randint(0, len(ops))
             ops.insert(pos, k if k == "P" else f"{k}:{r.choice(u)}")
             ops = ops[: pos + 1]
+        c = r.random()
+        if c < 0.12: ops = ["UNWIND"] + ops        # this lifetime runs inside a destructor while the thread unwinds from an earlier panic
+        elif c < 0.24: ops = ["THREAD"] + ops      # this lifetime runs on a freshly spawned thread
         lifetimes.append(ops)
     decl = ",".join(ts + FAKES)
     return f"{hid} {decl} " + "|".join(",".join(o) if o else "-" for o in lifetimes), lifetimes
@@ -74,7 +77,7 @@ def seg_project(evs, what):
 
 def judge(hid, line, lifetimes, h, mline, synth_val, project="full"):
     """-> dict(corr=[...], c02=[...], c03=[...], c12=[...], c17=[...], crashed=bool, nontrivial=tuple)"""
-    lifetimes = [[o for o in ops if o != "MAPOVER"] for ops in lifetimes]      # an action of the environment between lifetimes, not an operation
+    lifetimes = [[o for o in ops if o not in ("MAPOVER", "UNWIND", "THREAD")] for ops in lifetimes]      # the environment's action between lifetimes / the context a lifetime runs in: not operations
     J = dict(corr=[], corr_c05=[], c01=[], c02=[], c03=[], c11=[], c12=[], c17=[], c05=[], c06=[], crashed=False)
     case = dict(id=hid, history=line)
     recs = h["recs"]
@@ -326,8 +329,13 @@ def check_histories(res, prop_key, n, seed, project, max_lifetimes=3, extra_line
     res.cov["distinct_nontrivial"] += len(shapes)
     res.cov["samples"] += [c[0] for c in cases[:3]]
     res.extra["crashed_histories"] = crashed
-    res.extra["history_stats"] = dict(histories=len(cases), ops=sum(len(o) for _, l in cases for o in l), lifetimes=sum(len(l) for _, l in cases),
-                                      repeated_target=sum(1 for s in shapes if s[2]))
+    st = dict(histories=len(cases), ops=sum(len(o) for _, l in cases for o in l), lifetimes=sum(len(l) for _, l in cases),
+              repeated_target=sum(1 for s in shapes if s[2]),
+              lifetimes_run_while_unwinding=sum(1 for _, l in cases for o in l if "UNWIND" in o[:2]),
+              lifetimes_run_on_a_spawned_thread=sum(1 for _, l in cases for o in l if "THREAD" in o[:2]),
+              foreign_mapping_over_released_trampoline=sum(1 for _, l in cases for o in l if "MAPOVER" in o[:1]))
+    old = res.extra.get("history_stats", {})
+    res.extra["history_stats"] = {k: v + old.get(k, 0) for k, v in st.items()}
     if corr:
         res.broke(f"correspondence real(amd64) vs Injector.lifetime: {len(corr)} disagreements (projection {project})", json.dumps(corr[:4], indent=1)[:6000])
     return H
